@@ -1,7 +1,8 @@
 """C06 - the bus authenticates a peer only after a mechanism accepted it.  Correspondence + oracle harness.
 
 Implementation under test: the real `txdbus.bus.BusProtocol` with the real `BusAuthenticator` on a
-`StringTransport` (`txdbus.protocol._is_linux = False`, so no getsockopt; `_unix_creds` set by hand).
+`StringTransport` (the SO_PEERCRED lookup switched off through the module flag located by behaviour; `_unix_creds`
+set by hand).
 
   scripted streams   the `authenticators` table of a `BusAuthenticator` subclass maps the offered names
                      (same names, same order) to a mechanism whose `step` pops a script of outcomes
@@ -104,10 +105,80 @@ def impl():
         from txdbus import authentication, bus
         from twisted.internet.testing import StringTransport
         from zope.interface import implementer
-        txdbus.protocol._is_linux = False
         _IMPL.update(protocol=txdbus.protocol, authentication=authentication, bus=bus,
-                     StringTransport=StringTransport, implementer=implementer)
+                     StringTransport=StringTransport, implementer=implementer, notes=[])
+        _IMPL['gate'] = _locate_peercred_gate()
+        set_peercred(False)
     return _IMPL
+
+
+class _Missing:
+    def __repr__(self):
+        return '?'
+
+
+MISSING = _Missing()
+
+
+def peek(obj, name):
+    """An attribute of a txdbus object that no test pins (`state`, `reject_count`, `current_mech`, ...): MISSING
+    when the maintainers renamed it - the field is then left out of the comparison, never judged."""
+    try:
+        return getattr(obj, name)
+    except AttributeError:
+        note = 'attribute %s of %s not found: that field of the state snapshot is not compared' % (name, type(obj).__name__)
+        if note not in _IMPL.get('notes', []):
+            _IMPL.setdefault('notes', []).append(note)
+        return MISSING
+
+
+def _peercred_called(flagname, value):
+    """Does a fresh server protocol call getsockopt on its first read when module global `flagname` is `value`?"""
+    P = _IMPL['protocol']
+    calls = []
+
+    class Sock:
+        def getsockopt(self, *a):
+            import struct
+            calls.append(a)
+            return struct.pack('3i', 1, 0, 0)
+    old = getattr(P, flagname, MISSING) if flagname else MISSING
+    try:
+        if flagname:
+            setattr(P, flagname, value)
+        p = _IMPL['bus'].BusProtocol()
+        p.factory = _Factory
+        t = _IMPL['StringTransport']()
+        t.socket = Sock()
+        p.makeConnection(t)
+        try:
+            p.dataReceived(b'\0')
+        except Exception:
+            pass
+    finally:
+        if flagname and old is not MISSING:
+            setattr(P, flagname, old)
+    return bool(calls)
+
+
+def _locate_peercred_gate():
+    """The module-level switch of txdbus.protocol that makes dataReceived read SO_PEERCRED, found by behaviour
+    (fast path: the name `_is_linux`).  Returns ('flag', name), ('always',) or ('never',)."""
+    P = _IMPL['protocol']
+    cands = ['_is_linux'] + sorted(k for k, v in vars(P).items() if isinstance(v, bool) and k != '_is_linux')
+    for c in cands:
+        if isinstance(getattr(P, c, None), bool) and _peercred_called(c, True) and not _peercred_called(c, False):
+            return ('flag', c)
+    return ('always',) if _peercred_called(None, None) else ('never',)
+
+
+def set_peercred(on):
+    """Switch the SO_PEERCRED lookup on/off for the sessions that follow; False when it cannot be controlled."""
+    g = _IMPL['gate']
+    if g[0] == 'flag':
+        setattr(_IMPL['protocol'], g[1], bool(on))
+        return True
+    return (g[0] == 'always') == bool(on)
 
 
 class Trace:
@@ -134,6 +205,7 @@ class _Cur:
     script = None
     strict = False
     proto = None
+    auth = None
 
 
 def _build_classes():
@@ -208,6 +280,10 @@ def _build_classes():
         class HAuth(authentication.BusAuthenticator):
             authenticators = table
 
+            def __init__(self, *a, **kw):
+                authentication.BusAuthenticator.__init__(self, *a, **kw)
+                _Cur.auth = self
+
             def handleAuthMessage(self, line):
                 tr = _Cur.tr
                 tr.begin_line(line, len(_Cur.proto.transport.value()))
@@ -254,20 +330,34 @@ def make_session(mode, script=None, env=None, strict_script=False):
     proto.factory = _Factory
     t = I['StringTransport']()
     proto.makeConnection(t)
+    proto.h_force_creds = False
+    if env is None:
+        set_peercred(False)
+        if I['gate'][0] == 'always':
+            import struct as _st
+            t.socket = type('Sock', (), {'getsockopt': lambda self, *a: _st.pack('3i', 0, -1, -1)})()
     if env is not None:
-        if env.get('linux') and env.get('creds_tuple') is not None:
-            # the SO_PEERCRED block of dataReceived runs for real, against a fake socket
-            import struct
+        import struct
+        creds = env.get('creds_tuple')
 
-            class FakeSock:
-                def getsockopt(self, level, opt, size):
-                    assert (opt, size) == (17, struct.calcsize('3i')), (opt, size)
-                    return struct.pack('3i', *env['creds_tuple'])
+        class FakeSock:
+            def getsockopt(self, level, opt, size):
+                assert (opt, size) == (17, struct.calcsize('3i')), (opt, size)
+                return struct.pack('3i', *(creds if creds is not None else (0, -1, -1)))
+        want_linux = bool(env.get('linux') and creds is not None)
+        ok = set_peercred(want_linux)
+        if want_linux and ok:
+            # the SO_PEERCRED block of dataReceived runs for real, against a fake socket
             t.socket = FakeSock()
-            I['protocol']._is_linux = True
         else:
-            proto._unix_creds = env.get('creds_tuple')
-    proto.h_auth = proto._dbusAuth
+            if not ok and I['gate'][0] == 'always':
+                # the lookup cannot be switched off: let it run against the fake socket, then put the wanted
+                # credentials in place right after the NUL byte (`_unix_creds` is pinned by the test suite)
+                t.socket = FakeSock()
+                proto.h_force_creds = True
+                proto.h_creds = creds
+            proto._unix_creds = creds
+    proto.h_auth = _Cur.auth
     proto.h_trace = tr
     return proto, t, tr
 
@@ -275,7 +365,11 @@ def make_session(mode, script=None, env=None, strict_script=False):
 def feed(proto, t, reads):
     """Deliver the reads; stop after an exception escaped (the reactor drops the connection)."""
     crashed = None
-    for r in reads:
+    if getattr(proto, 'h_force_creds', False) and reads and len(reads[0]) > 1:
+        reads = [reads[0][:1], reads[0][1:]] + list(reads[1:])
+    for k, r in enumerate(reads):
+        if k == 1 and getattr(proto, 'h_force_creds', False):
+            proto._unix_creds = proto.h_creds
         try:
             proto.dataReceived(r)
         except NeedMore:
@@ -304,18 +398,20 @@ def _b(x):
 
 def observe(proto, t, tr, crashed):
     a = proto.h_auth
-    cur = a.current_mech
+    cur = peek(a, 'current_mech')
     curname = None
-    if cur is not None:
+    if cur is not None and cur is not MISSING:
         curname = getattr(cur, 'name', None) or _b(cur.getMechanismName())
         curname = _b(curname)
     g = _b(proto.guid)
+    st, rc, sa = peek(a, 'state'), peek(a, 'reject_count'), peek(a, 'authenticated')
     return {
         'sent': hxs(sent_lines(t)), 'closed': int(bool(t.disconnecting)), 'auth': int(proto.authd > 0),
         'crashed': int(crashed is not None), 'guid': hx(g) if g is not None else 'none',
         'bin': hx(proto.raw + (proto._buffer if proto.authd else b'')),
-        'handed': hxs([h['line'] for h in tr.handed]), 'state': a.state, 'rejects': a.reject_count,
-        'srvauth': int(bool(a.authenticated)), 'cur': hx(curname) if curname is not None else 'none',
+        'handed': hxs([h['line'] for h in tr.handed]), 'state': st, 'rejects': rc,
+        'srvauth': '?' if sa is MISSING else int(bool(sa)),
+        'cur': '?' if cur is MISSING else (hx(curname) if curname is not None else 'none'),
         'cancels': tr.cancels, 'steps': tr.steps,
     }
 
@@ -747,7 +843,7 @@ def judge_scripted(ctx, stream_name, script, reads_list, pending, label=None):
         pending.append((stream_name, case, model_line_scripted(script, reads), line))
         ctx.stat('reads=%d' % min(len(reads), 8))
         ctx.stat('closed=%d auth=%d crashed=%d' % (obs['closed'], obs['auth'], obs['crashed']))
-        ctx.stat('rejects=%d' % min(obs['rejects'], 7))
+        ctx.stat('rejects=%s' % (min(obs['rejects'], 7) if isinstance(obs['rejects'], int) else '?'))
         ctx.stat('state=%s' % obs['state'])
 
 
@@ -759,9 +855,15 @@ def flush_model(ctx, pending):
         pending.clear()
         return
     for (stream_name, case, _, implline), m in zip(pending, out):
+        if '=?' in implline:
+            hidden = {tok.split('=', 1)[0] for tok in implline.split(' ') if tok.endswith('=?')}
+            m = ' '.join((tok.split('=', 1)[0] + '=?') if tok.split('=', 1)[0] in hidden else tok for tok in m.split(' '))
         if m != implline:
             ctx.disagree(stream_name, case, m, implline)
     pending.clear()
+    for n in _IMPL.get('notes', []):
+        if n not in ctx.notes:
+            ctx.note(n)
 
 
 # ------------------------------------------------------------------ random / boundary / malformed generators
@@ -984,6 +1086,58 @@ class FakePwd(types.ModuleType):
         raise KeyError('getpwuid(): uid not found: %d' % uid)
 
 
+def patch_time(auth, tf):
+    """Make the cookie code see `tf()` as the time: every function of BusCookieAuthenticator whose default
+    arguments hold `time.time` (today `_get_cookies(timefunc=time.time)`, `_create_cookie(...)`) gets `tf` there,
+    and the module's reference to `time` is replaced by a shim.  Returns the undo actions."""
+    undo = []
+    C = auth.BusCookieAuthenticator
+    for klass in C.__mro__:
+        for name, fn in list(vars(klass).items()):
+            f = getattr(fn, '__func__', fn)
+            d = getattr(f, '__defaults__', None)
+            if d and any(x is time.time for x in d):
+                undo.append(lambda f=f, d=d: setattr(f, '__defaults__', d))
+                f.__defaults__ = tuple(tf if x is time.time else x for x in d)
+    for name, val in list(vars(auth).items()):
+        if val is time:
+            shim = types.SimpleNamespace(time=tf, sleep=lambda s: None)
+            undo.append(lambda name=name, val=val: setattr(auth, name, val))
+            setattr(auth, name, shim)
+        elif val is time.time:
+            undo.append(lambda name=name, val=val: setattr(auth, name, val))
+            setattr(auth, name, tf)
+    return undo
+
+
+def cookie_context():
+    """`BusCookieAuthenticator.cookieContext` (the name of the cookie file and the first word of the challenge).
+    Fast path: the class attribute; otherwise read off a challenge of the real mechanism in a scratch keyring."""
+    if 'ctx' in _IMPL:
+        return _IMPL['ctx']
+    auth = impl()['authentication']
+    v = getattr(auth.BusCookieAuthenticator, 'cookieContext', None)
+    if not isinstance(v, str):
+        tmp = tempfile.mkdtemp(prefix='c06-ctx-')
+        import pwd as realpwd
+        old = (sys.modules.get('pwd'), realpwd.getpwnam, realpwd.getpwuid)
+        fake = FakePwd([('probe', os.getuid(), os.getgid(), tmp)])
+        try:
+            sys.modules['pwd'] = fake
+            realpwd.getpwnam, realpwd.getpwuid = fake.getpwnam, fake.getpwuid
+            r = auth.BusCookieAuthenticator().step('probe')
+            v = r[1].split()[0].decode('ascii') if r[0] == 'CONTINUE' else None
+        finally:
+            sys.modules['pwd'] = old[0] if old[0] is not None else realpwd
+            realpwd.getpwnam, realpwd.getpwuid = old[1], old[2]
+            shutil.rmtree(tmp, ignore_errors=True)
+        if v is None:
+            raise RuntimeError('the cookie context could not be determined from the real mechanism')
+        _IMPL.setdefault('notes', []).append('BusCookieAuthenticator.cookieContext not found; read off a challenge')
+    _IMPL['ctx'] = v
+    return v
+
+
 def rnd_bytes(k, n):
     return bytes((k * 131 + j * 17 + 7) % 256 for j in range(n))
 
@@ -1005,9 +1159,9 @@ class RealEnv:
     def __enter__(self):
         I = impl()
         auth = I['authentication']
-        self.ctxname = auth.BusCookieAuthenticator.cookieContext
         users = [(u[0], u[1], u[2], self.home(u[3])) for u in self.spec['users']]
         self.users = users
+        self.ctxname = cookie_context()
         for h in sorted({u[3] for u in self.spec['users']}):
             os.makedirs(self.home(h))
         for h, st in sorted(self.spec['dirs'].items()):
@@ -1027,13 +1181,20 @@ class RealEnv:
             with open(os.path.join(dk, self.ctxname), 'wb') as f:
                 for cid, age, cookie in ents:
                     f.write(b'%d %d %s\n' % (cid, self.now - age, cookie.encode('ascii')))
-        C = auth.BusCookieAuthenticator
-        self.old_defaults = (C._get_cookies.__defaults__, C._create_cookie.__defaults__)
         tf = (lambda: self.now + 0.5) if self.frac else (lambda: float(self.now))
-        C._get_cookies.__defaults__ = (tf,)
-        C._create_cookie.__defaults__ = (tf,)
+        self.undo = patch_time(auth, tf)
         self.old_pwd = sys.modules.get('pwd')
-        sys.modules['pwd'] = FakePwd(users)
+        fake = FakePwd(users)
+        sys.modules['pwd'] = fake
+        # code that imported pwd at module level holds the real module: give it the same answers
+        import pwd as _real_pwd
+        if self.old_pwd is not None:
+            _real_pwd = self.old_pwd
+        self.old_pwfuncs = (_real_pwd, _real_pwd.getpwnam, _real_pwd.getpwuid)
+        try:
+            _real_pwd.getpwnam, _real_pwd.getpwuid = fake.getpwnam, fake.getpwuid
+        except (AttributeError, TypeError):
+            self.old_pwfuncs = None
         self.old_urandom = os.urandom
         env = self
 
@@ -1042,15 +1203,23 @@ class RealEnv:
             env.calls += 1
             return r
         os.urandom = urandom
-        self.old_hashlib = auth.hashlib
+        def sha1(data=b''):
+            h = hashlib.sha1(data)
+            env.sha[bytes(data)] = h.digest()
+            return h
 
         class H:
-            @staticmethod
-            def sha1(data=b''):
-                h = hashlib.sha1(data)
-                env.sha[bytes(data)] = h.digest()
-                return h
-        auth.hashlib = H
+            pass
+        H.sha1 = staticmethod(sha1)
+        # wherever txdbus.authentication keeps its reference to hashlib / sha1 (fast path: the global `hashlib`)
+        self.old_hash = []
+        for name, val in list(vars(auth).items()):
+            if val is hashlib:
+                self.old_hash.append((name, val))
+                setattr(auth, name, H)
+            elif val is hashlib.sha1:
+                self.old_hash.append((name, val))
+                setattr(auth, name, sha1)
         return self
 
     def __exit__(self, *a):
@@ -1060,10 +1229,14 @@ class RealEnv:
         else:
             sys.modules.pop('pwd', None)
         os.urandom = self.old_urandom
-        I['authentication'].hashlib = self.old_hashlib
-        C = I['authentication'].BusCookieAuthenticator
-        C._get_cookies.__defaults__, C._create_cookie.__defaults__ = self.old_defaults
-        I['protocol']._is_linux = False
+        for name, val in self.old_hash:
+            setattr(I['authentication'], name, val)
+        if self.old_pwfuncs is not None:
+            m, a1, a2 = self.old_pwfuncs
+            m.getpwnam, m.getpwuid = a1, a2
+        for f in self.undo:
+            f()
+        set_peercred(False)
         shutil.rmtree(self.root, ignore_errors=True)
 
     last_user = None
@@ -1191,6 +1364,12 @@ def resolve_action(act, env, last_data):
             resp = digest
         else:
             resp = b''
+        # what the bus will hash for this response (its challenge, the client's first token, the stored cookie):
+        # kept for the model's sha1 table even if the recording shim in txdbus.authentication is bypassed
+        toks = resp.split()
+        if len(toks) == 2:
+            th = chal + b':' + toks[0] + b':' + cookie
+            env.sha[th] = hashlib.sha1(th).digest()
         line = b'DATA ' + binascii.hexlify(resp) if resp else b'DATA'
         # 'upper': same digest, other letter case - whether hex digests compare case-insensitively is not said
         # by the statement: not judged (None)
@@ -1200,7 +1379,7 @@ def resolve_action(act, env, last_data):
     raise ValueError(act)
 
 
-def run_real(spec, actions, reads=None):
+def run_real(spec, actions, reads=None, extra_sha=None):
     """Phase 1 (reads is None): resolve the symbolic actions line by line.  Phase 2: replay the concrete
     reads.  Returns (obs, tr, crashed, lines, env-derived model env, fs observation, facts)."""
     with RealEnv(spec) as env:
@@ -1233,6 +1412,10 @@ def run_real(spec, actions, reads=None):
             crashed = feed(proto, t, reads)
         attach_replies(tr, t)
         obs = observe(proto, t, tr, crashed)
+        facts['sha'] = dict(env.sha)
+        if extra_sha:
+            for k, v in extra_sha.items():
+                env.sha.setdefault(k, v)
         fs = env.fs_obs()
         obs['files'], obs['dirs'], obs['rnd'] = fs[0], fs[1], env.calls
         menv = env.model_env()
@@ -1354,7 +1537,7 @@ def judge_real(ctx, case, pending, rng=None):
     rng = rng or ctx.rng
     first = None
     for reads in splittings(rng, stream, n_random=1, bytewise_max=0):
-        obs, tr, crashed, _, menv, _ = run_real(spec, actions, reads=reads)
+        obs, tr, crashed, _, menv, _ = run_real(spec, actions, reads=reads, extra_sha=facts.get('sha'))
         ctx.impl_trace()
         c2 = dict(inp)
         c2['reads'] = [hx(r) for r in reads]
